@@ -13,9 +13,12 @@ import sys
 
 REPO = os.environ.get("VERIF_REPO", "/repo")
 VERIF = os.path.dirname(os.path.dirname(os.path.abspath(__file__)))
-SCRATCH_ROOT = os.environ.get("VERIF_SCRATCH", "/var/tmp/kyrodb-verif")
+# Dev only: VERIF_SANDBOX=<name> (with VERIF_REPO=<scratch worktree>) gives a run its own build, scratch and
+# evidence directories so that a seeded tree can be checked while the registered checks run against /repo.
+SANDBOX = os.environ.get("VERIF_SANDBOX", "")
+SCRATCH_ROOT = os.environ.get("VERIF_SCRATCH", "/var/tmp/kyrodb-verif" + ("-" + SANDBOX if SANDBOX else ""))
 HARNESS_DIR = os.path.join(VERIF, "harness")
-BUILD_DIR = os.path.join(VERIF, "build")
+BUILD_DIR = os.path.join(VERIF, "build", "sandbox-" + SANDBOX) if SANDBOX else os.path.join(VERIF, "build")
 
 TRACING_MACROS = ["trace", "debug", "info", "warn", "error"]
 
